@@ -109,6 +109,34 @@ pub fn check_cli(dict: &[WR], tag: &str) -> Option<(String, String)> {
             let got = ModelSpec::from_bytes(&out).map(|x| x.0.dict_model);
             return Err(("cli-not-lossless".into(), format!("dump + replace changed the model: dictionary in {:?} out {:?}", dict, got)));
         }
+        // both options in ONE invocation (dump happens first, then the replacement) and neither option
+        // (plain re-encode): same dump, same model
+        {
+            let (csv2, mout2, mout3) = (format!("{dir}/dict2.csv"), format!("{dir}/out2.zst"), format!("{dir}/out3.zst"));
+            let (rc, err) = run_tool(&["--model-in", &min, "--dump-dict", &csv2, "--replace-dict", &csv, "--model-out", &mout2]).unwrap_or_else(|e| machinery_error(&e));
+            if rc != 0 {
+                return Err(("cli-combined-failed".into(), format!("--dump-dict + --replace-dict in one invocation exited with {rc}: {err}")));
+            }
+            if std::fs::read(&csv2).ok() != std::fs::read(&csv).ok() {
+                return Err(("cli-combined-dump-differs".into(), "the dump written next to a replacement differs from the dump written alone".into()));
+            }
+            let (rc, err) = run_tool(&["--model-in", &min, "--model-out", &mout3]).unwrap_or_else(|e| machinery_error(&e));
+            if rc != 0 {
+                return Err(("cli-copy-failed".into(), format!("--model-in/--model-out alone exited with {rc}: {err}")));
+            }
+            // ... and with the SAME file for both options (dump it, then read it back at once)
+            let (csv3, mout4) = (format!("{dir}/dict3.csv"), format!("{dir}/out4.zst"));
+            let (rc, err) = run_tool(&["--model-in", &min, "--dump-dict", &csv3, "--replace-dict", &csv3, "--model-out", &mout4]).unwrap_or_else(|e| machinery_error(&e));
+            if rc != 0 {
+                return Err(("cli-combined-same-file-failed".into(), format!("--dump-dict F --replace-dict F in one invocation exited with {rc}: {err}")));
+            }
+            for (what, path) in [("combined invocation", &mout2), ("plain re-encode", &mout3), ("combined invocation on one file", &mout4)] {
+                let out = std::fs::read(path).ok().and_then(|z| zstd::decode_all(&z[..]).ok());
+                if out.as_deref() != Some(&bytes[..]) {
+                    return Err(("cli-not-lossless".into(), format!("{what}: the written model differs from the input model")));
+                }
+            }
+        }
         // a record whose weight count does not match must be rejected
         if !dict.is_empty() {
             let text = std::fs::read_to_string(&csv).map_err(|e| ("cli-dump-unreadable".to_string(), e.to_string()))?;
